@@ -15,13 +15,15 @@ Inductive position := PUnspec | PLeft | PRight.
 Record ftab := {
   bs_bin : nat -> N;            (* binding_strength of Binary by operator *)
   as_bin : nat -> position;     (* associativity of Binary by operator (every other kind: Unspecified) *)
-  bs_un : N; bs_rng : N; bs_call : N; bs_other : N;
+  bs_un : N; bs_rng : N; bs_call : N; bs_func : N; bs_other : N;
   cbl : nat -> bool;            (* can_bind_left, by unary operator *)
   sym_bin : nat -> nat;         (* symbol printed for a binary / unary operator (BinOp / UnOp Display) *)
   sym_un : nat -> nat;
   alias_ctx : N;                (* Expr::write: an aliased expression is parenthesised when context_strength > this *)
   noalias_ctx : N;              (* FuncCall arm, no_alias: least context strength of an aliased callee / named value *)
   case_ctx : N;                 (* SwitchCase::write: least context strength of condition and value *)
+  default_ctx : N;              (* Func arm: least context strength of the default value of a parameter *)
+  body_ctx : N;                 (* Func arm: least context strength of the body *)
 }.
 
 (* WriteOpt restricted to what matters at unlimited width *)
@@ -37,6 +39,7 @@ Section Formatter.
     | EUn _ _ => bs_un F
     | ERng _ _ | ERngL _ | ERngR _ | ERng0 => bs_rng F
     | ECall _ _ => bs_call F
+    | EFunc _ _ _ => bs_func F
     | _ => bs_other F
     end.
   Definition assoc (e : expr) : position :=
@@ -130,6 +133,19 @@ Section Formatter.
                | [a] => fmt a (item_ctx k, PUnspec, false)
                | a :: t => fmt a (item_ctx k, PUnspec, false) ++ sep_of k i :: go t (S i)
                end) es O ++ [TClose k]
+        (* Func arm: `func ` params, `k:default ` at context >= default_ctx, `-> `, the body at context >= body_ctx *)
+        | EFunc ps ds b =>
+            TFunc :: map (fun p => TA (APar p)) ps ++
+            (fix go (l : list expr) : list tok :=
+               match l with
+               | [] => []
+               | d :: t =>
+                   match d with
+                   | ENamed k x => TNamed k :: fmt x (N.max ctx' (default_ctx F), PUnspec, unb')
+                   | _ => []
+                   end ++ go t
+               end) ds ++
+            TThin :: fmt b (N.max ctx' (body_ctx F), PUnspec, unb')
         | EAlias _ _ | ENamed _ _ => []
         end
     end.
@@ -172,7 +188,12 @@ Definition compat (F : ftab) (T : ptab) (nb nu : nat) : bool :=
   forallb (fun o => alias_ctx F <? bs_bin F o) B && (alias_ctx F <? bs_un F) && (alias_ctx F <? bs_rng F) &&
   (alias_ctx F <? noalias_ctx F) &&
   (* ... and stays bare as a positional argument *)
-  (bs_call F <=? alias_ctx F).
+  (bs_call F <=? alias_ctx F) &&
+  (* a lambda is weaker than a call (so it is parenthesised wherever a call is); it is parenthesised as a case branch
+     and as the body of a lambda (the parser reads a func_call there); the default value of a parameter is read as a
+     plain expression: calls, lambdas and aliased expressions are parenthesised *)
+  (0 <? bs_func F) && (bs_func F <? bs_call F) && (bs_func F <? case_ctx F) && (bs_func F <? body_ctx F) &&
+  (bs_call F <=? default_ctx F) && (alias_ctx F <? default_ctx F).
 
 (* ------------------------------------------------------------------ text *)
 Record ttab := {
@@ -224,6 +245,7 @@ Section Render.
     | AParam s => 36 :: s
     | AInterp sql parts => (if sql then 115 else 102) :: c_dquote :: flat_map ipart_text parts ++ [c_dquote]
     | AInternal s => [105;110;116;101;114;110;97;108;32] ++ s
+    | APar s => write_ident_part (ids R) s
     end.
 
   Definition tok_text (t : tok) : str :=
@@ -239,6 +261,8 @@ Section Render.
     | TArrow => [61; 62]
     | TAlias n => write_ident_part (ids R) n ++ [sp; 61]
     | TNamed n => write_ident_part (ids R) n ++ [58]
+    | TFunc => [102; 117; 110; 99]
+    | TThin => [45; 62]
     end.
 
   (* is a blank written between two adjacent tokens? *)
@@ -253,6 +277,7 @@ Section Render.
     | _, TComma => false
     | TComma, _ => true
     | TPipe, _ | _, TPipe | TArrow, _ | _, TArrow => true
+    | TFunc, _ | TThin, _ | _, TThin => true
     | TS _ false, _ | _, TS _ false => true
     | TAlias _, _ => true
     | TNamed _, _ => false
